@@ -85,6 +85,10 @@ func NewStream() io.ReadWriteCloser
 // messages, reads block until a message (or Close) arrives.
 func NewPipe() io.ReadWriteCloser
 
+// StreamHistory declares that an arbitrary amount of earlier, well-formed traffic has already been
+// read through every reader currently wrapping the stream (a long-lived connection).
+func StreamHistory(rwc io.ReadWriteCloser)
+
 // JSONArgs builds a JSON-RPC params payload of the given shape: a JSON array
 // (or, with isArray=false, a non-array value) whose positions have the JSON
 // kinds "string", "number", "bool", "object", "array" or "null".
